@@ -7,7 +7,7 @@
        failing element leaked itself);
      - the arm does leak: witness list<string> truncated inside the second element (finding F-19a);
      - the regenerated inventory of unsafe sites is the list the model accounts for. *)
-From PVGen Require Import Gen GenSpec GenAsync Own Proofs.GenBase Proofs.EncP Proofs.RoundP.
+From PVGen Require Import Gen GenSpec GenKeep GenAsync Own Proofs.GenBase Proofs.EncP Proofs.RoundP.
 From PV Require Import Proofs.TotalP.
 From Coq Require Import ZifyN ZifyNat ZifyBool.
 Open Scope Z_scope.
@@ -645,4 +645,350 @@ Example nested_leak :
      x0b; x00; x00; x00; x01; x00; x00; x00; x01; x61;
      x0b; x00; x00; x00; x02; x00; x00; x00; x01; x62; x00; x00; x00; x09]%byte
   = (Err EInvalidData, [GBytes [x62]%byte; GList [GBytes [x61]%byte]]).
+Proof. vm_compute. reflexivity. Qed.
+
+(* ================= the sync templates of keep_unknown_fields builds ================= *)
+Lemma own_decode_keep_S S p f t s : own_decode_keep S p (Datatypes.S f) t s =
+  match resolve S t with
+  | TyBool => lift (let* (b, s) := r_bool p s in Ok (GBool b, s))
+  | TyI8 => lift (let* (z, s) := r_i8 s in Ok (GI8 z, s))
+  | TyI16 => lift (let* (z, s) := r_i16 p s in Ok (GI16 z, s))
+  | TyI32 => lift (let* (z, s) := r_i32 p s in Ok (GI32 z, s))
+  | TyI64 => lift (let* (z, s) := r_i64 p s in Ok (GI64 z, s))
+  | TyDouble => lift (let* (z, s) := r_double p s in Ok (GDouble z, s))
+  | TyString | TyBinary => lift (let* (l, s) := r_bytes p s in Ok (GBytes l, s))
+  | TyUuid => lift (let* (l, s) := r_uuid s in Ok (GUuid l, s))
+  | TyVoid =>
+      lift (let* (_, s) := r_struct_begin p s in
+            let* (_, s) := r_struct_end p s in Ok (GVoid, s))
+  | TyList et =>
+      let+ (h, s) := lift (r_coll_begin p s) in
+      let+ (l, s) := own_elems (own_decode_keep S p f) (owns_heap_keep S et) (Datatypes.S f) et (snd h) s [] in
+      lift (Ok (GList l, s))
+  | TySet et =>
+      let+ (h, s) := lift (r_coll_begin p s) in
+      let+ (l, s) := own_elems (own_decode_keep S p f) false (Datatypes.S f) et (snd h) s [] in
+      lift (Ok (GSet l, s))
+  | TyMap kt vt =>
+      let+ (h, s) := lift (r_map_begin p s) in
+      let+ (l, s) := own_pairs (own_decode_keep S p f) (Datatypes.S f) kt vt (snd h) s [] in
+      lift (Ok (GMap l, s))
+  | TyRef n =>
+      match lookup S n with
+      | Some (DEnum _) => lift (let* (z, s) := r_i32 p s in Ok (GEnum z, s))
+      | Some (DStruct fs true is_arg) =>
+          let+ (_, s) := lift (r_struct_begin p s) in
+          let+ (r, s) := own_fields_keep S p f (own_decode_keep S p f) (Datatypes.S f) fs is_arg (map init_var fs)
+                                         (Z.of_nat (length fs)) [] s in
+          let+ (_, s) := lift (r_struct_end p s) in
+          let+ out := lift (finish_fields fs (fst r)) in
+          lift (Ok (GStruct out (snd r), s))
+      | Some (DStruct fs false _) =>
+          let+ (_, s) := lift (r_struct_begin p s) in
+          let+ (vars, s) := own_fields MSync S p f (own_decode_keep S p f) (Datatypes.S f) fs (map init_var fs) s in
+          let+ (_, s) := lift (r_struct_end p s) in
+          let+ out := lift (finish_fields fs vars) in
+          lift (Ok (GStruct out [], s))
+      | Some (DUnion vs void_ok true) =>
+          let+ (_, s) := lift (r_struct_begin p s) in
+          let+ (ret, s) := own_variants_keep S p f (own_decode_keep S p f) (Datatypes.S f) vs UNone s in
+          let+ (_, s) := lift (r_struct_end p s) in
+          lift (match ret with
+                | UKnown id x => Ok (GUnion id x, s)
+                | UUnknown c => Ok (GUnionUnknown c, s)
+                | UNone =>
+                    if void_ok then
+                      match vs with (id0, _) :: _ => Ok (GUnion id0 GVoid, s) | [] => Err EInvalidData end
+                    else Err EInvalidData
+                end)
+      | Some (DUnion vs void_ok false) =>
+          let+ (_, s) := lift (r_struct_begin p s) in
+          let+ (ret, s) := own_variants MSync S p f (own_decode_keep S p f) (Datatypes.S f) vs None s in
+          let+ (_, s) := lift (r_struct_end p s) in
+          lift (match ret with
+                | Some (id, x) => Ok (GUnion id x, s)
+                | None =>
+                    if void_ok then
+                      match vs with (id0, _) :: _ => Ok (GUnion id0 GVoid, s) | [] => Err EInvalidData end
+                    else Err EInvalidData
+                end)
+      | Some (DTypedef _) => lift (Err EOther)
+      | None => lift (Err EOther)
+      end
+  end.
+Proof. reflexivity. Qed.
+
+Lemma gen_decode_keep_S S p f t s : gen_decode_keep S p (Datatypes.S f) t s =
+  match resolve S t with
+  | TyBool => let* (b, s) := r_bool p s in Ok (GBool b, s)
+  | TyI8 => let* (z, s) := r_i8 s in Ok (GI8 z, s)
+  | TyI16 => let* (z, s) := r_i16 p s in Ok (GI16 z, s)
+  | TyI32 => let* (z, s) := r_i32 p s in Ok (GI32 z, s)
+  | TyI64 => let* (z, s) := r_i64 p s in Ok (GI64 z, s)
+  | TyDouble => let* (z, s) := r_double p s in Ok (GDouble z, s)
+  | TyString | TyBinary => let* (l, s) := r_bytes p s in Ok (GBytes l, s)
+  | TyUuid => let* (l, s) := r_uuid s in Ok (GUuid l, s)
+  | TyVoid =>
+      let* (_, s) := r_struct_begin p s in
+      let* (_, s) := r_struct_end p s in Ok (GVoid, s)
+  | TyList et =>
+      let* (h, s) := r_coll_begin p s in
+      let* (l, s) := dec_elems (gen_decode_keep S p f) (Datatypes.S f) et (snd h) s [] in
+      Ok (GList l, s)
+  | TySet et =>
+      let* (h, s) := r_coll_begin p s in
+      let* (l, s) := dec_elems (gen_decode_keep S p f) (Datatypes.S f) et (snd h) s [] in
+      Ok (GSet l, s)
+  | TyMap kt vt =>
+      let* (h, s) := r_map_begin p s in
+      let* (l, s) := dec_pairs (gen_decode_keep S p f) (Datatypes.S f) kt vt (snd h) s [] in
+      Ok (GMap l, s)
+  | TyRef n =>
+      match lookup S n with
+      | Some (DEnum _) => let* (z, s) := r_i32 p s in Ok (GEnum z, s)
+      | Some (DStruct fs true is_arg) =>
+          let* (_, s) := r_struct_begin p s in
+          let* (r, s) := dec_fields_keep S p f (gen_decode_keep S p f) (Datatypes.S f) fs is_arg (map init_var fs)
+                                         (Z.of_nat (length fs)) [] s in
+          let* (_, s) := r_struct_end p s in
+          let* out := finish_fields fs (fst r) in
+          Ok (GStruct out (snd r), s)
+      | Some (DStruct fs false _) =>
+          let* (_, s) := r_struct_begin p s in
+          let* (vars, s) := dec_fields S p f (gen_decode_keep S p f) (Datatypes.S f) fs (map init_var fs) s in
+          let* (_, s) := r_struct_end p s in
+          let* out := finish_fields fs vars in
+          Ok (GStruct out [], s)
+      | Some (DUnion vs void_ok true) =>
+          let* (_, s) := r_struct_begin p s in
+          let* (ret, s) := dec_variants_keep S p f (gen_decode_keep S p f) (Datatypes.S f) vs UNone s in
+          let* (_, s) := r_struct_end p s in
+          match ret with
+          | UKnown id x => Ok (GUnion id x, s)
+          | UUnknown c => Ok (GUnionUnknown c, s)
+          | UNone =>
+              if void_ok then
+                match vs with (id0, _) :: _ => Ok (GUnion id0 GVoid, s) | [] => Err EInvalidData end
+              else Err EInvalidData
+          end
+      | Some (DUnion vs void_ok false) =>
+          let* (_, s) := r_struct_begin p s in
+          let* (ret, s) := dec_variants S p f (gen_decode_keep S p f) (Datatypes.S f) vs None s in
+          let* (_, s) := r_struct_end p s in
+          match ret with
+          | Some (id, x) => Ok (GUnion id x, s)
+          | None =>
+              if void_ok then
+                match vs with (id0, _) :: _ => Ok (GUnion id0 GVoid, s) | [] => Err EInvalidData end
+              else Err EInvalidData
+          end
+      | Some (DTypedef _) => Err EOther
+      | None => Err EOther
+      end
+  end.
+Proof. reflexivity. Qed.
+
+Section ProjKeep.
+  Variable rec : ty -> rst -> res (gval * rst).
+  Variable orec : ty -> rst -> own (gval * rst).
+  Hypothesis Hrec : forall t s, fst (orec t s) = rec t s.
+  Variable S : schema.
+  Variable p : pk.
+  Variable fk : nat.
+
+  Lemma own_fields_keep_fst : forall m fs ia vars num unk s,
+    fst (own_fields_keep S p fk orec m fs ia vars num unk s) = dec_fields_keep S p fk rec m fs ia vars num unk s.
+  Proof using Hrec.
+    induction m as [|m IH]; intros fs ia vars num unk s; cbn [own_fields_keep dec_fields_keep]; [reflexivity|].
+    destruct (ia && (num =? 0)).
+    { destruct (Z.of_nat (length (rbuf s)) <? 2); reflexivity. }
+    apply fst_obind_ext; [reflexivity|]. intros [h s1].
+    destruct (ttype_eqb (fst h) TStop).
+    { apply fst_obind_ext; [reflexivity|]. intros [z s2]. reflexivity. }
+    apply fst_obind_ext; [reflexivity|]. intros [n1 s2].
+    apply fst_obind_ext.
+    - destruct (match_field S fs 0 (snd h) (fst h)) as [[i f]|].
+      + apply fst_obind_ext; [apply Hrec|]. intros [x s3]. reflexivity.
+      + apply fst_obind_ext; [reflexivity|]. intros [n2 s3]. reflexivity.
+    - intros [r s3]. apply fst_obind_ext; [reflexivity|]. intros [z' s4]. apply IH.
+  Qed.
+
+  Lemma own_variants_keep_fst : forall m vs ret s,
+    fst (own_variants_keep S p fk orec m vs ret s) = dec_variants_keep S p fk rec m vs ret s.
+  Proof using Hrec.
+    induction m as [|m IH]; intros vs ret s; cbn [own_variants_keep dec_variants_keep]; [reflexivity|].
+    apply fst_obind_ext; [reflexivity|]. intros [h s1].
+    destruct (ttype_eqb (fst h) TStop).
+    { apply fst_obind_ext; [reflexivity|]. intros [z s2]. reflexivity. }
+    apply fst_obind_ext; [reflexivity|]. intros [n1 s2].
+    match goal with |- context [match ?k with Some _ => _ | None => _ end] =>
+      match type of k with option (Z * ty) => destruct k as [[id vt]|] end end.
+    - destruct ret; try reflexivity. apply fst_obind_ext; [apply Hrec|]. intros [x s3]. apply IH.
+    - apply fst_obind_ext; [reflexivity|]. intros [n2 s3]. destruct ret; try reflexivity. apply IH.
+  Qed.
+End ProjKeep.
+
+(* erasing the ghost from the keep-build instance gives GenKeep.gen_decode_keep *)
+Theorem own_proj_keep S p : forall f t s, fst (own_decode_keep S p f t s) = gen_decode_keep S p f t s.
+Proof.
+  induction f as [|f IH]; intros t s; [reflexivity|].
+  rewrite own_decode_keep_S, gen_decode_keep_S.
+  destruct (resolve S t) as [| | | | | | | | | |et|et|kt vt|n]; try reflexivity.
+  - apply fst_obind_ext; [reflexivity|]. intros [h s1].
+    apply fst_obind_ext; [apply own_elems_fst, IH|]. intros [l s2]. reflexivity.
+  - apply fst_obind_ext; [reflexivity|]. intros [h s1].
+    apply fst_obind_ext; [apply own_elems_fst, IH|]. intros [l s2]. reflexivity.
+  - apply fst_obind_ext; [reflexivity|]. intros [h s1].
+    apply fst_obind_ext; [apply own_pairs_fst, IH|]. intros [l s2]. reflexivity.
+  - destruct (lookup S n) as [[fs [|] ia|vs vo [|]|ms|tt]|]; try reflexivity.
+    + apply fst_obind_ext; [reflexivity|]. intros [u s1].
+      apply fst_obind_ext; [apply own_fields_keep_fst, IH|]. intros [r s2].
+      apply fst_obind_ext; [reflexivity|]. intros [u2 s3].
+      apply fst_obind_ext; [reflexivity|]. intros out. reflexivity.
+    + apply fst_obind_ext; [reflexivity|]. intros [u s1].
+      apply fst_obind_ext; [apply own_fields_fst_sync, IH|]. intros [vars s2].
+      apply fst_obind_ext; [reflexivity|]. intros [u2 s3].
+      apply fst_obind_ext; [reflexivity|]. intros out. reflexivity.
+    + apply fst_obind_ext; [reflexivity|]. intros [u s1].
+      apply fst_obind_ext; [apply own_variants_keep_fst, IH|]. intros [ret s2].
+      apply fst_obind_ext; [reflexivity|]. intros [u2 s3]. reflexivity.
+    + apply fst_obind_ext; [reflexivity|]. intros [u s1].
+      apply fst_obind_ext; [apply own_variants_fst_sync, IH|]. intros [ret s2].
+      apply fst_obind_ext; [reflexivity|]. intros [u2 s3]. reflexivity.
+Qed.
+
+Theorem own_proj_keep_top S p t l : fst (own_decode_keep_top S p t l) = gen_decode_keep_top S p t l.
+Proof. unfold own_decode_keep_top, gen_decode_keep_top. cbn [fst]. rewrite own_proj_keep. reflexivity. Qed.
+
+Section ClosedKeep.
+  Variable S : schema.
+  Variable p : pk.
+  Variable Q : forall A, own A -> Prop.
+  Hypothesis Qlift : forall A (r : res A), Q A (lift r).
+  Hypothesis Qbind : forall A B (r : own A) (f : A -> own B), Q A r -> (forall a, Q B (f a)) -> Q B (obind r f).
+  Variable fk : nat.
+  Variable orec : ty -> rst -> own (gval * rst).
+  Variable T : ty -> Prop.
+  Hypothesis Hrec : forall t s, T t -> Q _ (orec t s).
+
+  Lemma match_field_in fs : forall i id ft j f, match_field S fs i id ft = Some (j, f) -> In f fs.
+  Proof.
+    induction fs as [|g r IHr]; intros i id ft j f; cbn [match_field]; [discriminate|].
+    destruct id as [z|]; [|discriminate].
+    destruct ((f_id g =? z) && ttype_eqb (ttype_of_ty S (f_ty g)) ft).
+    - intros H. injection H as _ <-. left. reflexivity.
+    - intros H. right. eapply IHr. exact H.
+  Qed.
+
+  Lemma closed_fields_keep : forall m fs ia vars num unk s, (forall f, In f fs -> T (f_ty f)) ->
+    Q _ (own_fields_keep S p fk orec m fs ia vars num unk s).
+  Proof using Qlift Qbind Hrec.
+    induction m as [|m IH]; intros fs ia vars num unk s Hfs; cbn [own_fields_keep]; [apply Qlift|].
+    destruct (ia && (num =? 0)).
+    { destruct (Z.of_nat (length (rbuf s)) <? 2); apply Qlift. }
+    apply Qbind; [apply Qlift|]. intros [h s1].
+    destruct (ttype_eqb (fst h) TStop).
+    { apply Qbind; [apply Qlift|]. intros [z s2]. apply Qlift. }
+    apply Qbind; [apply Qlift|]. intros [n1 s2].
+    apply Qbind.
+    - destruct (match_field S fs 0 (snd h) (fst h)) as [[i f]|] eqn:Em.
+      + apply Qbind; [|intros [x s3]; apply Qlift]. apply Hrec, Hfs. eapply match_field_in; eauto.
+      + apply Qbind; [apply Qlift|]. intros [n2 s3]. apply Qlift.
+    - intros [r s3]. apply Qbind; [apply Qlift|]. intros [z' s4]. apply IH, Hfs.
+  Qed.
+
+  Lemma closed_variants_keep : forall m vs ret s, (forall q, In q vs -> T (snd q)) ->
+    Q _ (own_variants_keep S p fk orec m vs ret s).
+  Proof using Qlift Qbind Hrec.
+    induction m as [|m IH]; intros vs ret s Hvs; cbn [own_variants_keep]; [apply Qlift|].
+    apply Qbind; [apply Qlift|]. intros [h s1].
+    destruct (ttype_eqb (fst h) TStop).
+    { apply Qbind; [apply Qlift|]. intros [z s2]. apply Qlift. }
+    apply Qbind; [apply Qlift|]. intros [n1 s2].
+    destruct (snd h) as [id|].
+    - destruct (find_variant vs id) as [vt|] eqn:Ef.
+      + destruct (is_void (resolve S vt)).
+        * apply Qbind; [apply Qlift|]. intros [n2 s3]. destruct ret; try apply Qlift. apply IH, Hvs.
+        * destruct ret; try apply Qlift.
+          apply Qbind; [|intros [x s3]; apply IH, Hvs].
+          apply Hrec. apply (Hvs (id, vt)). apply find_variant_in, Ef.
+      + apply Qbind; [apply Qlift|]. intros [n2 s3]. destruct ret; try apply Qlift. apply IH, Hvs.
+    - apply Qbind; [apply Qlift|]. intros [n2 s3]. destruct ret; try apply Qlift. apply IH, Hvs.
+  Qed.
+End ClosedKeep.
+
+(* keep builds: nothing leaks unless a list with an element type that needs Drop IN SUCH A BUILD is reachable *)
+Theorem own_keep_noleak S p t0 : no_heap_list_keep S t0 ->
+  forall f t s, reach S t0 t -> snd (own_decode_keep S p f t s) = [].
+Proof.
+  intros Hno.
+  induction f as [|f IH]; intros t s Hr; [reflexivity|].
+  rewrite own_decode_keep_S. apply reach_resolve in Hr.
+  set (Q := fun (A : Type) (r : own A) => NOLEAK r).
+  assert (Ql : forall A (r : res A), Q A (lift r)) by (intros; apply noleak_lift).
+  assert (Qb : forall A B (r : own A) (g : A -> own B), Q A r -> (forall a, Q B (g a)) -> Q B (obind r g))
+    by (intros; apply noleak_bind; auto).
+  assert (Hel : forall et, reach S t0 et -> forall m k s' acc, NOLEAK (own_elems (own_decode_keep S p f) false m et k s' acc)).
+  { intros et He. induction m as [|m IHm]; intros k s' acc; cbn [own_elems]; destruct (k <=? 0); try reflexivity.
+    unfold NOLEAK, obind_leak. specialize (IH et s' He).
+    destruct (fst (own_decode_keep S p f et s')) as [[x s2]| |]; cbn [snd fst]; rewrite IH; [|reflexivity..].
+    apply IHm. }
+  destruct (resolve S t) as [| | | | | | | | | |et|et|kt vt|n] eqn:Eres; try reflexivity.
+  - apply noleak_bind; [reflexivity|]. intros [h s1]. rewrite (Hno et Hr).
+    apply noleak_bind; [|intros [l s2]; reflexivity]. apply Hel. eapply reach_list; eauto.
+  - apply noleak_bind; [reflexivity|]. intros [h s1].
+    apply noleak_bind; [|intros [l s2]; reflexivity]. apply Hel. eapply reach_set; eauto.
+  - apply noleak_bind; [reflexivity|]. intros [h s1].
+    apply noleak_bind; [|intros [l s2]; reflexivity].
+    apply (closed_pairs Q Ql Qb (own_decode_keep S p f) (reach S t0)).
+    + intros t' s' Ht'. apply IH, Ht'.
+    + eapply reach_mapk; eauto.
+    + eapply reach_mapv; eauto.
+  - destruct (lookup S n) as [[fs [|] ia|vs vo [|]|ms|tt]|] eqn:Elk; try reflexivity.
+    + apply noleak_bind; [reflexivity|]. intros [u s1].
+      apply noleak_bind.
+      * apply (closed_fields_keep S p Q Ql Qb f (own_decode_keep S p f) (reach S t0)).
+        -- intros t' s' Ht'. apply IH, Ht'.
+        -- intros fd Hin. eapply reach_field; eauto.
+      * intros [r s2]. apply noleak_bind; [reflexivity|]. intros [u2 s3].
+        apply noleak_bind; [reflexivity|]. intros out. reflexivity.
+    + apply noleak_bind; [reflexivity|]. intros [u s1].
+      apply noleak_bind.
+      * apply (closed_fields MSync S p Q Ql Qb f (own_decode_keep S p f) (reach S t0)).
+        -- intros t' s' Ht'. apply IH, Ht'.
+        -- intros fd Hin. eapply reach_field; eauto.
+      * intros [vars s2]. apply noleak_bind; [reflexivity|]. intros [u2 s3].
+        apply noleak_bind; [reflexivity|]. intros out. reflexivity.
+    + apply noleak_bind; [reflexivity|]. intros [u s1].
+      apply noleak_bind.
+      * apply (closed_variants_keep S p Q Ql Qb f (own_decode_keep S p f) (reach S t0)).
+        -- intros t' s' Ht'. apply IH, Ht'.
+        -- intros q Hin. eapply reach_variant; eauto.
+      * intros [ret s2]. apply noleak_bind; [reflexivity|]. intros [u2 s3]. reflexivity.
+    + apply noleak_bind; [reflexivity|]. intros [u s1].
+      apply noleak_bind.
+      * apply (closed_variants MSync S p Q Ql Qb f (own_decode_keep S p f) (reach S t0)).
+        -- intros t' s' Ht'. apply IH, Ht'.
+        -- intros q Hin. eapply reach_variant; eauto.
+      * intros [ret s2]. apply noleak_bind; [reflexivity|]. intros [u2 s3]. reflexivity.
+Qed.
+
+Theorem no_leak_keep_partial S t : no_heap_list_keep S t ->
+  forall p f s, snd (own_decode_keep S p f t s) = [].
+Proof. intros Hn p f s. apply (own_keep_noleak S p t Hn). apply reach_refl. Qed.
+
+(* the keep-build sync decoder leaks the same way: struct Names { 1: list<string> } compiled with retention *)
+Definition leak_schema_keep : schema := [DStruct [mkField 1 Optional (TyList TyString) None] true false].
+Example leak_witness_keep :
+  own_decode_keep_top leak_schema_keep PBinary (TyRef 0) leak_input = (Err EInvalidData, [GBytes [x61]%byte]).
+Proof. vm_compute. reflexivity. Qed.
+
+(* a list of scalar-only structs leaks nothing in a plain build, but does in a keep build (every kept struct
+   owns a LinkedBytes): list<struct P { 1: i32 }>, two elements, the second truncated *)
+Definition pt_schema (kp : bool) : schema := [DStruct [mkField 1 Optional TyI32 None] kp false].
+Definition pt_input : list byte := [x0c; x00; x00; x00; x02; x08; x00; x01; x00; x00; x00; x05; x00; x08; x00]%byte.
+Example pt_plain : own_decode_top MSync (pt_schema false) PBinary (TyList (TyRef 0)) pt_input = (Err EInvalidData, []).
+Proof. vm_compute. reflexivity. Qed.
+Example pt_keep :
+  own_decode_keep_top (pt_schema true) PBinary (TyList (TyRef 0)) pt_input = (Err EInvalidData, [GStruct [(1, GI32 5)] []]).
 Proof. vm_compute. reflexivity. Qed.
